@@ -225,3 +225,7 @@ package satisfaction
 //@             && (forall i int, j int :: 0 <= i && i < j && j < len(*result) ==> (*result)[i].Id != (*result)[j].Id && (*result)[i].Weight <= (*result)[j].Weight)
 //@   ensures [importance_is_the_sum_of_values_over_the_considered_alternatives] forall k int :: 0 <= k && k < len(*result) ==> exists j int :: 0 <= j && j < len(params.Criteria) && (*result)[k].Criterion == params.Criteria[j]
 //@             && (*result)[k].Weight == old(model.cumw(params.ConsideredAlternatives, params.Criteria[j].Id, len(params.ConsideredAlternatives), model.WeightIdentity))
+
+//@ func (*SatisfactionBiasListener).getMethodParams
+//@   property C07 C13 C15 C18
+//@   ensures [listener_of_the_requests_level_source] pParams.Function in a.satisfactionLevelsUpdateListeners.Listeners && result0 == a.satisfactionLevelsUpdateListeners.Listeners[pParams.Function]
